@@ -136,6 +136,45 @@ def check_narrow(ctx, prog, fns, tag):
                        % (op, mm.group(1), mm.group(2), meth, why), g.where(c.bb))
 
 
+def float_roundtrip_sites(prog, fns):
+    """[(f, switch bb, guarded)] for every `x as T as f64 == x` exactness test (float -> int -> float round trip) in
+    fns; guarded = dominated by a float comparison of x with `T::MAX as f64` (the float-to-int cast saturates: 2^63
+    casts to i64::MAX and back to 2^63, so the unguarded round trip accepts it and yields i64::MAX)."""
+    out = []
+    for f in fns:
+        bounds = []
+        rts = []
+        for bb in sorted(f.reachable):
+            if f.term(bb)["k"] != "switch":
+                continue
+            cd = flow.cond_of(f, bb)
+            if cd.kind != "bin" or cd.rv.get("ty") not in ("f64", "f32"):
+                continue
+            if cd.rv["op"] in ("Eq", "Ne"):
+                def _is_rt(op_):
+                    p_ = op_place(op_)
+                    if p_ is None or "p" in p_:
+                        return False
+                    for d in flow.whole_defs(f, p_["l"]):
+                        if d.kind == "stmt" and d.rv["k"] == "cast" and d.rv["kind"] == "IntToFloat":
+                            q_ = op_place(d.rv["op"])
+                            if q_ is not None and "p" not in q_ and any(
+                                    e.kind == "stmt" and e.rv["k"] == "cast" and e.rv["kind"] == "FloatToInt"
+                                    for e in flow.whole_defs(f, q_["l"])):
+                                return True
+                    return False
+                if _is_rt(cd.rv["a"]) or _is_rt(cd.rv["b"]):
+                    rts.append(bb)
+            if cd.rv["op"] in ("Lt", "Le", "Gt", "Ge"):
+                for x in ("a", "b"):
+                    for o in flow.origins(f, cd.rv[x]):
+                        if o.kind == "const" and str(o.const.get("named", "")).endswith("::MAX"):
+                            bounds.append(bb)
+        for r in rts:
+            out.append((f, r, any(cfg.dominates(f, b_, r) for b_ in bounds)))
+    return out
+
+
 def run(ctx):
     ctx.explain("C08: frozen operator table checked against the MIR of value/ops.rs (integer arm -> i128::checked_* "
                 "with None -> Err; float arms of // and % both euclidean), a lossy-cast lint with the round-trip "
@@ -246,6 +285,13 @@ def run(ctx):
             ctx.ob("C08.N7.round-trip-is-guarded-against-saturation", "%sas_f64|%s" % (tag, v), ok_b,
                    "the round trip for %s is not dominated by `rv < T::MAX as f64`: the float-to-int cast saturates, so "
                    "T::MAX (not representable) passes the round trip and compares equal to the next power of two" % v, af.loc)
+        # N7b: the same saturation bound for every float -> int -> float exactness test (integer conversions of values)
+        rt = float_roundtrip_sites(prog, [g for g in prog.fns.values() if g.crate == "minijinja"])
+        for g, rb, guarded in rt:
+            ctx.ob("C08.N7.float-to-int-round-trip-is-guarded-against-saturation", tag + g.path, guarded,
+                   "`x as T as f64 == x` is not dominated by `x < T::MAX as f64`: 2^63 (or 2^N for the type) passes the test "
+                   "through the saturating cast and is converted to T::MAX, a different integer", g.where(rb))
+        ctx.floor("C08.N7 float->int->float exactness tests" + tag, len(rt), 6)
         # ---- N6
         check_narrow(ctx, prog, [(op, prog.fn(OPS + op)) for op in list(INT_TABLE) + ["neg", "div"] if prog.has_fn(OPS + op)], tag)
         # int_div: explicit zero check before checked_div_euclid is fine either way (checked returns None on 0)
